@@ -201,6 +201,11 @@ func main() {
 			}
 			if rw.usedFS {
 				astutil.AddNamedImport(p.Fset, f, fsName, simfsPath)
+				for _, ip := range []string{"os", "path/filepath", "io/ioutil", "archive/zip"} {
+					if !astutil.UsesImport(f, ip) {
+						astutil.DeleteImport(p.Fset, f, ip)
+					}
+				}
 			}
 			f.Comments = nil
 			var buf bytes.Buffer
